@@ -407,6 +407,27 @@ fn main() {
     ctx.prop_split("histories-f64", "fft-history", ctx.n(1_200, 20_000), ctx.parts(), case(0, ctx.n(11, 14) as u32, 8).boxed(), run_case);
     ctx.prop_split("histories-f32", "fft-history", ctx.n(5_000, 100_000), ctx.parts(), case(1, 9, 12).boxed(), run_case);
     ctx.prop("single-calls-f64", "fft-history", ctx.n(20_000, 400_000), case(0, 8, 1), run_case);
+    // tables beyond 2^16 entries (then a small product on the same object): explicit histories, both profiles
+    {
+        let big = |len: u32, shape: u8, seed: u32| Poly { len, shape, seed };
+        let mut hs = Vec::new();
+        for (i, &(la, lb)) in [(70_000u32, 3u32), (65_536, 2), (65_537, 65_537), (131_072, 1), (100_000, 40_000)].iter().enumerate() {
+            if !release && i >= 2 {
+                break;
+            }
+            hs.push(Case {
+                float: 0,
+                amp: u16::MAX,
+                calls: vec![
+                    Call::Mul { a: big(la, 3, i as u32), b: big(lb, 2, 7) },
+                    Call::Mul { a: big(5, 3, 1), b: big(3, 1, 2) },
+                    Call::Spectrum { a: big(9, 3, 3), b: big(8, 2, 4), pad: 0, auto: false },
+                    Call::MulInto { a: big(33, 3, 5), b: big(32, 0, 6), dst: 2, fill: 5 },
+                ],
+            });
+        }
+        ctx.exhaustive("tables-beyond-2^16", "fft-history", "transforms of size 2^17 / 2^18 followed by small products on the same object", false, hs, run_case);
+    }
     if release {
         // envelope corners at larger sizes (release only: the checked build is ~10x slower here)
         ctx.prop_cfg("large-f64", "fft-history", ctx.n(60, 600), 40, case(0, ctx.n(14, 17) as u32, 3), run_case);
